@@ -107,4 +107,49 @@ theorem GenC14_e2e_over_the_wire (ver : Nat × Nat) (op : Nat) (p : DynV) (clock
     rw [heqv, hr]
     cases H 0 { op := op, uid := [], payload := normDyn p } <;> simp [Client.send, Client.statusSuccess]
 
+
+/-! ### non-vacuity of the hypotheses -/
+def exActPayloadV : Val := .struct [.one (.text [97])]
+def exActPayload : DynV := .val false (.struct KmipGen.sd_ActivateRequest) exActPayloadV
+
+theorem wire_zeroAuth_eq : FV.one zeroAuth = zeroFld (.mk "Authentication" 0x42000c false false false (.struct KmipGen.sd_Authentication)) := by
+  simp [zeroFld, zeroSD, zeroFlds, zeroVal, zeroAuth, KmipGen.sd_Authentication]
+
+/-- non-vacuity: the Request `Client.Send(OPERATION_ACTIVATE, ActivateRequest{UniqueIdentifier: "a"})` builds - zero Authentication, zero
+    Message Extension and all - meets the well-formedness hypothesis of `GenC14_e2e_over_the_wire` … -/
+theorem GenC14_example_request_wf : WFv (.struct KmipGen.sd_Request) (mkRequest wireZExt (1, 4) 18 exActPayload) := by
+  simp only [mkRequest, exActPayload, exActPayloadV, WFv, WFflds, WFfv, WFmany, KmipGen.sd_Request, KmipGen.sd_RequestHeader, KmipGen.sd_RequestBatchItem,
+    KmipGen.sd_ProtocolVersion, KmipGen.sd_ActivateRequest, SD.fields,
+    Fld.ignored, Fld.required, Fld.ty, Fld.tag, Fld.skip, Fld.slice]
+  refine ⟨⟨trivial, by decide, Or.inr ⟨?ver, ?mrs, ?cc, ?sc, ?asy, ?ac, ?att, ?au, ?be, ?bo, ?ts, ?bc, trivial⟩⟩, ⟨trivial, by decide, fun _ => by simp, ⟨?item, trivial⟩ ⟩, trivial⟩
+  case ver => exact ⟨trivial, by decide, Or.inr ⟨⟨trivial, by decide, Or.inr ⟨trivial, by decide⟩⟩, ⟨trivial, by decide, Or.inr ⟨trivial, by decide⟩⟩, trivial⟩⟩
+  case mrs => exact ⟨trivial, by decide, Or.inr ⟨trivial, by decide⟩⟩
+  case cc => exact ⟨trivial, by decide, Or.inr ⟨trivial, by decide⟩⟩
+  case sc => exact ⟨trivial, by decide, Or.inr ⟨trivial, by decide⟩⟩
+  case asy => exact ⟨trivial, by decide, Or.inr trivial⟩
+  case ac => exact ⟨trivial, by decide, Or.inr trivial⟩
+  case att => exact ⟨trivial, by decide, fun h => by simp at h, trivial⟩
+  case au => exact ⟨trivial, by decide, Or.inl ⟨trivial, wire_zeroAuth_eq⟩⟩
+  case be => exact ⟨trivial, by decide, Or.inr ⟨trivial, by decide⟩⟩
+  case bo => exact ⟨trivial, by decide, Or.inr trivial⟩
+  case ts => exact ⟨trivial, by decide, Or.inr ⟨trivial, by decide⟩⟩
+  case bc => exact ⟨trivial, by decide, Or.inr ⟨trivial, by decide⟩⟩
+  case item =>
+    refine ⟨⟨trivial, by decide, Or.inr ⟨trivial, by decide⟩⟩, ⟨trivial, by decide, Or.inr ⟨trivial, by decide⟩⟩,
+      ⟨trivial, by decide, ?disp, ⟨⟨trivial, by decide, Or.inr ⟨trivial, by decide⟩⟩, trivial⟩⟩,
+      ⟨trivial, by decide, Or.inl ⟨trivial, rfl⟩⟩, trivial⟩
+    exact ⟨0, _, .one (.enum 18), .enum 18, .mk (.enum 18) true (.struct KmipGen.sd_ActivateRequest), rfl, rfl, rfl, rfl, rfl, rfl⟩
+
+/-- … its lengths fit … -/
+theorem GenC14_example_request_small : (canonTop KmipGen.sd_Request (mkRequest wireZExt (1, 4) 18 exActPayload)).Small = true := by decide +kernel
+
+/-- … Encode accepts it (120 bytes), so the Server's Decode of those bytes yields a Request that handleBatch answers -/
+theorem GenC14_example_request_served (clock : Nat) (H : Nat → ItemIn → HRes) (fin : Fin) :
+    ∃ rb rv d1 resp, encodeSD KmipGen.sd_Request (mkRequest wireZExt (1, 4) 18 exActPayload) = .ok rb ∧ rb.length = 120 ∧
+      decodeSD KmipGen.sd_Request rb fin = .ok (rv, rb.length, d1) ∧
+      handleBatch wireZNonce wireZExt clock true H rv = some resp := by
+  obtain ⟨rv, d1, resp, h1, h2, _⟩ := GenC14_e2e_over_the_wire (1, 4) 18 exActPayload clock H _ [] fin .eof
+    GenC14_example_request_wf GenC14_example_request_small rfl
+  exact ⟨_, rv, d1, resp, rfl, by decide +kernel, h1, h2⟩
+
 end Kmip
